@@ -511,7 +511,8 @@ def _mk(e, s, a):
 @unit("C16", "_types:RenderArgs.convert")
 def u_convert(ctx):
     obs = []
-    for rel, tgt_has_args in [(r, True) for r in ("same", "target-is-child", "target-is-parent", "unrelated")] + [("target-is-parent", False), ("same", False)]:
+    for rel, tgt_has_args in [(r, True) for r in ("same", "target-is-child", "target-is-parent", "unrelated")] + [("target-is-parent", False), ("same", False),
+                                                                                                                      ("target-is-child", False)]:
         eng = ctx.engine(f"C16/RenderArgs.convert[{rel}{'' if tgt_has_args else ',target-without-render-arguments'}]", "C16")
         eng.default_replay = "C16.construct"
         st = State()
@@ -519,6 +520,11 @@ def u_convert(ctx):
         own = st.new("rcls", {"cid": 1, "__name__": "Own"})
         keep, drop = st.new("rcls", {"cid": 10}), st.new("rcls", {"cid": 11})
         tgt_args = frozenset([keep]) if tgt_has_args else frozenset()
+        if rel == "target-is-child":
+            # a child knows every class its parent knows (the set at hand holds one namespace for each of those), plus its own
+            # namespace class if it has one - if it has none, the two tables have the same size, and the result is still a NEW set
+            # associated with the child
+            tgt_args = frozenset([keep, drop, st.new("rcls", {"cid": 12})]) if tgt_has_args else frozenset([keep, drop])
         tgt = own if rel == "same" else st.new("rcls", {"cid": 2, "__name__": "Tgt", "_ALL_DEFAULT_ARGS": tgt_args})
         # the interned set of the root class: an existing object of ANOTHER class - never a valid result of a conversion to `tgt`
         root = st.new("rcls", {"cid": 0, "__name__": "Renderable", "_ALL_DEFAULT_ARGS": frozenset()})
